@@ -194,7 +194,7 @@ theorem pdb_atom_roundtrip (excl : List (List Char)) (serial : Nat) (a : Atom)
   have hp : pdb.readerFields = pdbReaderFields := rfl
   rw [hp, h]
   rcases halt with halt | halt <;>
-    simp [pdbAtomOfProps, Props.str, Props.int, Props.dec, Props.get, List.find?, halt, hex, hel, bind, Except.bind,
+    simp [pdbAtomOfProps, Props.isNan, Props.str, Props.int, Props.dec, Props.get, List.find?, halt, hex, hel, bind, Except.bind,
       pure, Except.pure]
 
 /-! ## non-vacuity: concrete instances of the hypotheses used above -/
